@@ -267,7 +267,7 @@ def derived_oracle(R, pc, n):
     C = conv.impl()
     bad = None
     for i in range(n):
-        m = R.rng.randint(2, 5)
+        m = R.rng.choice([2, 3, 4, 5, 6, 6, 7])      # six tensors make the 6 x n block square
         vs = []
         for _ in range(m):
             e = [R.rng.uniform(-1, 1) for _ in range(3)]
